@@ -33,6 +33,9 @@ LEAD_ACK = step('L', 'MsgAppResp')
 SMALL = step('FC', 'MsgAppResp') + step('F', 'MsgHeartbeatResp') + step('F', 'MsgBeat') + step('F', 'MsgCheckQuorum') + step('F', 'MsgTransferLeader') + step('F', 'MsgReadIndex') + step('F', 'MsgReadIndexResp') + step('FL', 'MsgForgetLeader')
 READ = ['vpH_read_L_MsgReadIndex', 'vpH_read_L_MsgHeartbeatResp']
 READ_J = ['vpH_read_L_MsgHeartbeatResp_joint']
+READ_PEND = ['vpH_read_L_MsgAppResp_pending']
+READ_PEND_T = ['vpH_read_L_MsgAppResp_pending', 'vpH_read_L_MsgAppResp_pending_joint']
+HUP_X = ['vpH_step_F_MsgHup_snap', 'vpH_step_F_MsgHup_paged']
 READ_SINGLETON = ['vpH_read_L_MsgReadIndex_singleton']
 RAW = ['vpH_raw_Ready_sync_F', 'vpH_raw_Ready_sync_C', 'vpH_raw_Ready_sync_L', 'vpH_raw_Ready_async_F', 'vpH_raw_Ready_async_C', 'vpH_raw_Ready_async_L']
 RAW_SYNC_Q = ['vpH_raw_Ready_sync_F', 'vpH_raw_Ready_sync_L']
@@ -56,6 +59,10 @@ TRACK_T = ['vpH_t_InflightsAdd_4', 'vpH_t_InflightsFree_4', 'vpH_t_InflightsMisc
 DET = ['vpH_det_F_MsgHup_bigids', 'vpH_det_L_MsgBeat_bigids', 'vpH_det_F_MsgVote', 'vpH_det_F_MsgApp', 'vpH_det_F_MsgHup', 'vpH_det_C_MsgVoteResp', 'vpH_det_P_MsgPreVoteResp', 'vpH_det_L_MsgHeartbeatResp', 'vpH_det_L_MsgProp', 'vpH_det_L_MsgBeat', 'vpH_det_L_MsgCheckQuorum', 'vpH_det_L_MsgReadIndex']
 DET_T = DET + ['vpH_det_F_MsgSnap', 'vpH_det_L_MsgAppResp', 'vpH_detAll_F_MsgHup', 'vpH_detAll_C_MsgVoteResp', 'vpH_detAll_L_MsgBeat', 'vpH_detAll_L_MsgCheckQuorum', 'vpH_detAll_L_MsgHeartbeatResp', 'vpH_detAll_L_MsgProp']
 
+API_ALL = ['vpH_api_Campaign_F', 'vpH_api_Campaign_L', 'vpH_api_Propose_F', 'vpH_api_Propose_C', 'vpH_api_Propose_L', 'vpH_api_ReadIndex_F', 'vpH_api_ReadIndex_L', 'vpH_api_TransferLeader_F', 'vpH_api_TransferLeader_L', 'vpH_api_ForgetLeader_F', 'vpH_api_ReportUnreachable_L', 'vpH_api_ReportSnapshot_L', 'vpH_api_Tick_F', 'vpH_api_Tick_L']
+API_LIGHT = [h for h in API_ALL if h not in ('vpH_api_TransferLeader_L', 'vpH_api_Tick_L', 'vpH_api_Propose_L')]
+API_TXT = "RawNode request methods (Campaign, Propose, ReadIndex, TransferLeader, ForgetLeader, ReportUnreachable, ReportSnapshot, Tick): relational cells decide that the method leaves the node exactly as stepping the documented message does (labels API/). "
+
 ALL_STEP = VOTE + VRESP + HUP + HB + APP + SNAP + PROP + LEAD + LEAD_HBR + SMALL
 # quick-tier stand-ins for the three largest leader cells
 LEAD_HBR_Q = ['vpH_step_L_MsgHeartbeatResp_from2']
@@ -77,7 +84,7 @@ BQ = ("quick: storage entries <= 1, unstable entries <= 1 (<= 2 in Ready/ack cel
 BT = ("thorough: storage/unstable entries <= 2/2, compaction index fully symbolic, shapes {simple, joint, learner, joint+LearnersNext}, both peers fully symbolic with <= 2 in-flight messages, symbolic size limits in every cell. ")
 OUT = "Outside: longer logs, more than 3 (4) node ids, more than one call per harness except where a harness name says otherwise (Ready->Advance, ticks, election), node.go, formatting."
 
-def prop(pid, quick, thorough, bounds, explanation, level="model_checking", assumptions=None, qbudget=1700, tbudget=20000):
+def prop(pid, quick, thorough, bounds, explanation, level="model_checking", assumptions=None, qbudget=2400, tbudget=21600):
     specs[pid] = {
         "level": level,
         "quick": {"budget_s": qbudget, "harnesses": quick},
@@ -112,14 +119,14 @@ prop("C07",
      "H1: term and commit never decrease and the vote changes at most once per term, on every (role x message type) cell; H2: every emitted message carries the current term (grants echo the request term, pre-vote requests Term+1), never one below a term already exposed; H3: Ready exposes the HardState iff it changed and remembers it; H4: restart restores (term, vote, commit) from storage.")
 
 prop("C02",
-     H(VOTE, ["E2/", "E4/", "E5/", "H1/vote"]) + H(VRESP, ["E3/", "E4/", "E5/", "H1/vote"]) + H(HUP, ["E3/", "E4/", "E5/"]) + H(RESTART, ["E7/", "H4/"]) + H(ELECTION, ["E6/"]),
-     H(T(VOTE + VRESP + HUP + HB[:3] + APP[:1]), ["E2/", "E3/", "E4/", "E5/", "H1/vote"]) + H(['vpH_raw_Restart_3'], ["E7/", "H4/"]) + H(ELECTION_T, ["E6/"]),
+     H(VOTE, ["E2/", "E4/", "E5/", "H1/vote"]) + H(VRESP, ["E3/", "E4/", "E5/", "H1/vote"]) + H(HUP, ["E3/", "E4/", "E5/"]) + H(RESTART, ["E7/", "H4/"]) + H(ELECTION, ["E6/"]) + H(["vpH_api_Campaign_F", "vpH_api_Campaign_L"], ["API/campaign"]),
+     H(T(VOTE + VRESP + HUP + HB[:3] + APP[:1]), ["E2/", "E3/", "E4/", "E5/", "H1/vote"]) + H(['vpH_raw_Restart_3'], ["E7/", "H4/"]) + H(ELECTION_T, ["E6/"]) + H(["vpH_api_Campaign_F", "vpH_api_Campaign_L"], ["API/campaign"]),
      BQ + BT + "Election harness: follower campaigns, Ready is taken, two arbitrary vote responses are stepped before the storage write completes (sync and async). " + OUT,
      "E2 grant rule (one vote per term, only to up-to-date logs, not while following a leader), E3 a node becomes leader only as a candidate by a MsgVoteResp of its own term that completes a joint-majority of granted votes, E4 provenance of tallied votes, E5 the self vote travels through the after-append queue, E6 leading only with a durable term, E7 restart as follower.")
 
 prop("C17",
-     H(VOTE, ["K1/", "K3/"]) + H(VRESP + HUP, ["K2/"]) + H(step('L', 'MsgCheckQuorum') + step('L', 'MsgHeartbeatResp')[:0], ["K4/"]) + H(TICK[1:3], ["K5/"]),
-     H(T(VOTE), ["K1/", "K3/"]) + H(T(VRESP + HUP), ["K2/"]) + H(T(step('L', 'MsgCheckQuorum') + LEAD_HBR + LEAD_ACK), ["K4/"]) + H(TICK[:3] + ['vpH_tick_CheckQuorum_et3', 'vpH_tick_CheckQuorum_et2_joint'], ["K5/"]),
+     H(VOTE, ["K1/", "K3/"]) + H(VRESP + HUP, ["K2/"]) + H(step('L', 'MsgCheckQuorum') + step('L', 'MsgHeartbeatResp')[:0], ["K4/"]) + H(TICK[1:3], ["K5/"]) + H(["vpH_api_Campaign_F", "vpH_api_ForgetLeader_F", "vpH_api_TransferLeader_F", "vpH_api_Tick_F"], ["API/"]),
+     H(T(VOTE), ["K1/", "K3/"]) + H(T(VRESP + HUP), ["K2/"]) + H(T(step('L', 'MsgCheckQuorum') + LEAD_HBR + LEAD_ACK), ["K4/"]) + H(TICK[:3] + ['vpH_tick_CheckQuorum_et3', 'vpH_tick_CheckQuorum_et2_joint'], ["K5/"]) + H(["vpH_api_Campaign_F", "vpH_api_ForgetLeader_F", "vpH_api_TransferLeader_F", "vpH_api_TransferLeader_L", "vpH_api_Tick_F", "vpH_api_Tick_L"], ["API/"]),
      BQ + BT + "Tick harnesses: ElectionTick 2 (3), HeartbeatTick 1, 2*ET ticks without incoming messages. " + OUT,
      "K1 a pre-vote request changes nothing but the reply, K2 with PreVote the term rises for a campaign only after a pre-vote quorum or on a leader-initiated transfer, K3 the leader lease, K4 CheckQuorum steps down iff no joint-majority was recently active, K5 a silent leader steps down within two election timeouts.")
 
@@ -136,8 +143,8 @@ prop("C06",
      "Q1 the leader's commit index only advances to an own-term entry matched by a joint majority, Q2 Match rises only through a non-reject MsgAppResp of the current term from that peer, Q3 acknowledgements are truthful, Q4 heartbeats carry min(Match, commit), Q5 follower commit = max(old, min(leader commit, end of slice)); Q6 commit <= last index is part of Inv.")
 
 prop("C04",
-     H(VOTE[:4], ["E2/"]) + H(VRESP[:1], ["E3/", "N1/"]) + H(LEAD + APP[:1] + SNAP[:1] + HB[:1], ["N2/", "Q1/"]),
-     H(T(VOTE), ["E2/"]) + H(T(VRESP), ["E3/", "N1/"]) + H(T(LEAD + LEAD_ACK + LEAD_HBR + APP + SNAP + HB), ["N2/", "Q1/"]),
+     H(VOTE[:4], ["E2/"]) + H(VRESP[:1], ["E3/", "N1/"]) + H(LEAD + APP[:1] + SNAP[:1] + HB[:1], ["N2/", "Q1/"]) + H(HUP_X[1:], ["G3/"]),
+     H(T(VOTE), ["E2/"]) + H(T(VRESP), ["E3/", "N1/"]) + H(T(LEAD + LEAD_ACK + LEAD_HBR + APP + SNAP + HB), ["N2/", "Q1/"]) + H(HUP_X[1:], ["G3/"]),
      BQ + BT + OUT,
      "Local premises of leader completeness: E2 votes only to up-to-date logs, E3 election quorum, Q1 only own-term entries are committed by counting, N1 a new leader keeps its log and appends one empty entry, N2 the committed prefix is immutable on every node.")
 
@@ -160,26 +167,26 @@ prop("C08",
      "A1 Ready hands out exactly the contiguous committed entries after `applying` (maximal prefix within the size quota, only stable entries in async mode), A2 applied/applying never move back and consecutive batches abut, A3 nothing is handed out while a snapshot is pending, A4 restart resumes right after Config.Applied, A5 apply acknowledgements.")
 
 prop("C09",
-     H(SNAP, ["S1/"]) + H(LEAD[:1] + LEAD_HBR_Q + LEAD_ACK_Q[1:] + step('L', 'MsgSnapStatus'), ["S3/", "S4/", "L4/no-append"]) + H(RAW_SNAP, ["S2/"]) + H(ACK[3:4], ["S2/"]) + H(['vpH_log_unstableOps_1_2'], ["S1/"]),
-     H(T(SNAP + SNAP_L), ["S1/"]) + H(T(LEAD + LEAD_HBR + LEAD_ACK), ["S3/", "S4/", "L4/no-append"]) + H(RAW_SNAP + RAW_ADV[:1], ["S2/"]) + H(ACK[3:4], ["S2/"]) + H(['vpH_log_unstableOps_2_2'], ["S1/"]),
+     H(SNAP, ["S1/"]) + H(LEAD[:1] + LEAD_HBR_Q + LEAD_ACK_Q[1:] + step('L', 'MsgSnapStatus'), ["S3/", "S4/", "L4/no-append"]) + H(RAW_SNAP, ["S2/"]) + H(ACK[3:4], ["S2/"]) + H(['vpH_log_unstableOps_1_2'], ["S1/"]) + H(["vpH_api_ReportSnapshot_L"], ["API/report-snapshot"]),
+     H(T(SNAP + SNAP_L), ["S1/"]) + H(T(LEAD + LEAD_HBR + LEAD_ACK), ["S3/", "S4/", "L4/no-append"]) + H(RAW_SNAP + RAW_ADV[:1], ["S2/"]) + H(ACK[3:4], ["S2/"]) + H(['vpH_log_unstableOps_2_2'], ["S1/"]) + H(["vpH_api_ReportSnapshot_L"], ["API/report-snapshot"]),
      BQ + BT + "MsgSnap cells: snapshot index/term symbolic, ConfState from the shape menu (10 shapes), pending unstable snapshot allowed. " + OUT,
      "S1 a snapshot at or below the commit index, without this node, or matching the log changes nothing but (for a match) the commit index; otherwise it replaces the log, commit index and configuration exactly; S2 persistence handshake; S3 the leader sends the storage snapshot only for a compacted prefix and tracks it; S4 snapshot status handling.")
 
 prop("C10",
-     H(CONF, ["G1/", "G4/", "Q1/", "P1/"]) + H(HUP[:3] + HUP[4:7], ["G3/"]) + H(ACK[:3], ["G6/"]) + H(VRESP[:2], ["E3/"]),
-     H(CONF_T, ["G1/", "G4/", "Q1/", "P1/"]) + H(T(HUP), ["G3/"]) + H(ACK[:3], ["G6/"]) + H(T(VRESP), ["E3/"]),
+     H(CONF, ["G1/", "G4/", "Q1/", "P1/"]) + H(HUP[:3] + HUP[4:7], ["G3/"]) + H(ACK[:3], ["G6/"]) + H(VRESP[:2], ["E3/"]) + H(HUP_X, ["G3/"]),
+     H(CONF_T, ["G1/", "G4/", "Q1/", "P1/"]) + H(T(HUP), ["G3/"]) + H(ACK[:3], ["G6/"]) + H(T(VRESP), ["E3/"]) + H(HUP_X, ["G3/"]),
      BQ + BT + "Propose gate: <= 2 (3) entries per proposal, each normal / ConfChange / ConfChangeV2 with <= 2 changes, symbolic types and node ids; ApplyConfChange: <= 2 changes over ids 1..4 on shapes {simple, joint, joint+LearnersNext, self learner}, restricted to changes the Changer accepts (A-cc). " + OUT,
      "G1 the propose gate keeps at most one unapplied configuration change and refuses enter/leave mismatches, G3 no campaign with a committed-but-unapplied change, G4 ApplyConfChange installs exactly the Changer's result (C13) and handles leader removal, G5 election and commit quorums are joint (E3, Q1 on joint shapes), G6 auto-leave is proposed exactly when the joint configuration has been applied.")
 
 prop("C11",
-     H(READ + READ_J, ["R1/", "R2/", "R3/", "R4/"]) + H(READ_SINGLETON, ["R2/", "R2b/"]) + H(step('F', 'MsgReadIndex') + step('F', 'MsgReadIndexResp') + HB[:1], ["R4/", "R5/"]),
-     H(READ + READ_J, ["R1/", "R2/", "R3/", "R4/"], policies=[0, 1]) + H(READ_SINGLETON, ["R2/", "R2b/"]) + H(T(step('F', 'MsgReadIndex') + step('F', 'MsgReadIndexResp') + HB), ["R4/", "R5/"]),
+     H(READ + READ_J, ["R1/", "R2/", "R3/", "R4/"]) + H(READ_SINGLETON, ["R2/", "R2b/"]) + H(step('F', 'MsgReadIndex') + step('F', 'MsgReadIndexResp') + HB[:1], ["R4/", "R5/"]) + H(["vpH_api_ReadIndex_F", "vpH_api_ReadIndex_L"], ["API/read-index"]) + H(READ_PEND, ["R2/", "R3/"]),
+     H(READ + READ_J, ["R1/", "R2/", "R3/", "R4/"], policies=[0, 1]) + H(READ_SINGLETON, ["R2/", "R2b/"]) + H(T(step('F', 'MsgReadIndex') + step('F', 'MsgReadIndexResp') + HB), ["R4/", "R5/"]) + H(["vpH_api_ReadIndex_F", "vpH_api_ReadIndex_L"], ["API/read-index"]) + H(READ_PEND_T, ["R2/", "R3/"]),
      BQ + "Read cells: <= 2 queued unconfirmed requests, <= 1 postponed request, acks present/absent per member with symbolic positions, shapes {three voters, joint, two voters, singleton self, singleton other with self removed}. " + OUT,
      "R1 admission (postponed until an own-term commit, queued with the commit index at receipt, position broadcast), R2 release only for the prefix confirmed by a joint majority of acknowledgements, R2b the singleton shortcut only when the sole voter is this node and it has committed in its term, R3 each answer carries its recorded index and own context, R4 resets/echo, R5 follower side.")
 
 prop("C16",
-     H(['vpH_log_limitSize_3'] + TRACK, ["C16/", "I-prog/"]) + H(SIZE[:2], ["L2/", "L4/", "L5/"]) + H(LEAD[:1] + LEAD_ACK_Q[1:] + PROP_Q[3:], ["L4/", "L5/"]) + H(ACK[:1], ["L5/"]),
-     H(['vpH_log_limitSize_4'] + TRACK_T, ["C16/", "I-prog/"]) + H(SIZE, ["L2/", "L4/", "L5/"]) + H(T(LEAD + LEAD_HBR + LEAD_ACK + PROP[3:]), ["L2/", "L4/", "L5/"]) + H(ACK[:1], ["L5/"]),
+     H(['vpH_log_limitSize_3'] + TRACK, ["C16/", "I-prog/"]) + H(SIZE[:2], ["L2/", "L4/", "L5/"]) + H(LEAD[:1] + LEAD_ACK_Q[1:] + PROP_Q[3:], ["L4/", "L5/"]) + H(ACK[:1], ["L5/"]) + H(["vpH_api_ReportUnreachable_L"], ["API/report-unreachable"]),
+     H(['vpH_log_limitSize_4'] + TRACK_T, ["C16/", "I-prog/"]) + H(SIZE, ["L2/", "L4/", "L5/"]) + H(T(LEAD + LEAD_HBR + LEAD_ACK + PROP[3:]), ["L2/", "L4/", "L5/"]) + H(ACK[:1], ["L5/"]) + H(["vpH_api_ReportUnreachable_L"], ["API/report-unreachable"]),
      BQ + BT + "limitSize: <= 3 (4) entries with symbolic term/index/type/payload length, exact protobuf size model; Inflights: size <= 3 (4), every ring shape (buffer length, start, count), symbolic contents. " + OUT,
      "L1 limitSize returns the maximal non-empty prefix within the budget, L2 every MsgApp respects MaxSizePerMsg (one entry always allowed), L3 Inflights refines a bounded FIFO, L4 the in-flight window and pause rules, L5 the uncommitted-size quota.")
 
@@ -191,14 +198,14 @@ prop("C18",
      assumptions=COMMON[:1] + COMMON[2:3] + ["proto.Size(Entry) is the exact protobuf wire-size formula (engine intrinsic, validated by native replay)"])
 
 prop("C20",
-     H(PROP_Q, ["P1/", "P2/", "P3/", "L5/accept"]) + H(CONF[:2], ["P1/", "P2/"]) + H(APP[:1] + VRESP[:1] + SNAP[:1] + HB[:1] + LEAD[:2] + ACK[:1], ["P4/"]),
-     H(T(PROP), ["P1/", "P2/", "P3/", "L5/accept"]) + H(CONF[:2] + ['vpH_conf_Propose_3'], ["P1/", "P2/"]) + H(T(LEAD + LEAD_HBR + LEAD_ACK + APP + SNAP + HUP + VRESP), ["P4/", "M3/", "N2/"]) + H(ACK, ["P4/"]),
+     H(PROP_Q, ["P1/", "P2/", "P3/", "L5/accept"]) + H(CONF[:2], ["P1/", "P2/"]) + H(APP[:1] + VRESP[:1] + SNAP[:1] + HB[:1] + LEAD[:2] + ACK[:1], ["P4/"]) + H(["vpH_api_Propose_F", "vpH_api_Propose_C", "vpH_api_Propose_L"], ["API/propose"]),
+     H(T(PROP), ["P1/", "P2/", "P3/", "L5/accept"]) + H(CONF[:2] + ['vpH_conf_Propose_3'], ["P1/", "P2/"]) + H(T(LEAD + LEAD_HBR + LEAD_ACK + APP + SNAP + HUP + VRESP), ["P4/", "M3/", "N2/"]) + H(ACK, ["P4/"]) + H(["vpH_api_Propose_F", "vpH_api_Propose_C", "vpH_api_Propose_L"], ["API/propose"]),
      BQ + BT + "Proposals: <= 2 entries with opaque payloads of symbolic length (identity tracked). " + OUT,
      "P1 an accepted proposal appends exactly the proposed entries (payload, type, order) once, as copies, P2 a dropped proposal changes nothing, P3 non-leaders forward the same entries once or drop, P4 outside proposals every new or changed log entry is an entry of the stepped MsgApp, the empty entry of a new leader or the empty auto-leave entry.")
 
 prop("C14",
-     H(VOTE + VRESP[:4] + HUP + HB + APP[:1] + SNAP[:1] + PROP_Q + LEAD + LEAD_ACK_Q[:1] + SMALL, ["Inv/"], panics=True) + H(RAW_SYNC_Q + RAW_ASYNC_Q[:1] + RAW_SNAP + RESTART + CONF[2:] + ACK[:1] + ACK[3:4], ["Inv/"], panics=True),
-     H(T(ALL_STEP + LEAD_ACK + APP_L + SNAP_L), ["Inv/"], panics=True) + H(RAW_ALL + RAW_ADV + ['vpH_raw_Restart_3'] + CONF + ACK + TICK, ["Inv/"], panics=True) + H(LOG_T + TRACK_T, ["C18/", "C16/"], panics=True),
+     H(VOTE + VRESP[:4] + HUP + HB + APP[:1] + SNAP[:1] + PROP_Q + LEAD + LEAD_ACK_Q[:1] + SMALL, ["Inv/"], panics=True) + H(RAW_SYNC_Q + RAW_ASYNC_Q[:1] + RAW_SNAP + RESTART + CONF[2:] + ACK[:1] + ACK[3:4], ["Inv/"], panics=True) + H(API_LIGHT + ["vpH_api_Propose_L"], ["API/"], panics=True) + H(HUP_X, ["Inv/", "G3/"], panics=True),
+     H(T(ALL_STEP + LEAD_ACK + APP_L + SNAP_L), ["Inv/"], panics=True) + H(RAW_ALL + RAW_ADV + ['vpH_raw_Restart_3'] + CONF + ACK + TICK, ["Inv/"], panics=True) + H(LOG_T + TRACK_T, ["C18/", "C16/"], panics=True) + H(API_ALL, ["API/"], panics=True) + H(HUP_X, ["Inv/", "G3/"], panics=True),
      BQ + BT + OUT,
      "No run of any cell ends in a panic (explicit panic, Logger.Panic*, index/slice out of range, nil dereference, nil-map write, failed type assertion, division by zero) and the representation invariant holds afterwards, under Inv, the V-* input assumptions, A-cc and the storage contract.")
 
